@@ -18,7 +18,7 @@ def T(module, *names, partial=False):
           "Kanzi.Properties.C12_ans1": "Kanzi.C12", "Kanzi.Properties.C12_cm": "Kanzi.C12", "Kanzi.Properties.C13_srt": "Kanzi.C13", "Kanzi.Properties.C01_blockgen": "Kanzi.C01gen",
           "Kanzi.Properties.C19_paths": "Kanzi.C19", "Kanzi.Properties.C13_alias": "Kanzi.C13", "Kanzi.Properties.C13_lzp": "Kanzi.C13", "Kanzi.Properties.C13_fsd": "Kanzi.C13", "Kanzi.Properties.C12_binary": "Kanzi.C12", "Kanzi.Properties.C12_fpaq": "Kanzi.C12",
           "Kanzi.Properties.C12_cm_codec": "Kanzi.C12", "Kanzi.Properties.C13_lz": "Kanzi.C13", "Kanzi.Properties.C13_lz_consts": "Kanzi.ConstsTie",
-          "Kanzi.Properties.C12_tpaq": "Kanzi.C12", "Kanzi.Properties.C12_tpaq_codec": "Kanzi.C12"}[module]
+          "Kanzi.Properties.C12_tpaq": "Kanzi.C12", "Kanzi.Properties.C12_tpaq_codec": "Kanzi.C12", "Kanzi.Properties.C12_huffman": "Kanzi.C12"}[module]
     return [{"module": module, "name": n if n.startswith("Kanzi.") else ns + "." + n, "partial": partial or n.endswith("_partial")} for n in names]
 
 
@@ -69,6 +69,7 @@ BINENT = {"name": "binent", "kmodel": "binent", "timeout": 7200}
 FPAQ = {"name": "fpaq", "kmodel": "fpaq", "timeout": 7200}
 LZ = {"name": "lz", "kmodel": "lz", "timeout": 7200}
 TPAQPRED = {"name": "tpaqpred", "kmodel": "tpaqpred", "timeout": 7200}
+HUFFMAN = {"name": "huffman", "kmodel": "huffman", "timeout": 7200}
 LZP = {"name": "lzp", "kmodel": "lzp", "timeout": 3600}
 FSD = {"name": "fsd", "kmodel": "fsd", "timeout": 3600}
 SRT = {"name": "srt", "kmodel": "srt", "timeout": 3600}
@@ -224,7 +225,7 @@ PROPS["C11"] = {
 
 PROPS["C12"] = {
     "title": "Entropy codecs: exact inverse pairs with bit-exact consumption", "design_ref": "5.12", "level": "proof",
-    "technique": "PARTIAL Lean proof: varint, alphabet, NONE codec, frequency headers, the whole ANS order-0, ANS order-1 and RANGE codecs proved as inverse pairs; CM predictor proved range-safe; with exact consumption on bit strings, models tied byte-exactly to the Go encoders; all 9 codecs searched directly on the real code",
+    "technique": "PARTIAL Lean proof: varint, alphabet, NONE codec, frequency headers, ALL NINE entropy codecs modelled: NONE, HUFFMAN, ANS0, ANS1, RANGE proved as inverse pairs with no hypothesis; FPAQ, CM, TPAQ, TPAQX proved (generic binary coder + predictor models) under the decoder's own chunk-size acceptance test; with exact consumption on bit strings, models tied byte-exactly to the Go encoders; all 9 codecs searched directly on the real code",
     "facts": ["Consts", "BitOps"],
     "theorems": T(M12, "C12_varint", "C12_alphabet", "C12_none", "C12_freq_header", "C12_freq_header_needs_sum", "C12_freq_header_after_normalize", "C12_ans_reciprocal", "C12_ans_encode_closed_form", "C12_ans_step")
                 + T(M16, "C16_normalize")
@@ -238,9 +239,11 @@ PROPS["C12"] = {
                 + T("Kanzi.Properties.C12_cm_codec", "C12_cm_codec_safe", "C12_cm_encode_total", "C12_cm_block", "C12_cm_reject", "C12_cm_block_states")
                 + T("Kanzi.Properties.C12_tpaq", "C12_tpaq_init", "C12_tpaq_init_sizes", "C12_tpaq_new", "C12_tpaq_step", "C12_tpaq_get_range", "C12_tpaq_get_rangeZ", "C12_tpaq_final_pr", "C12_tpaq_no_fault",
                     "C12_tpaq_no_fault_squash", "C12_tpaq_apm", "C12_tpaq_run", "C12_tpaq_pred_safe", "C12_tpaq_consts", "C12_tpaq_tables")
-                + T("Kanzi.Properties.C12_tpaq_codec", "C12_tpaq_codec_safe", "C12_tpaq_encode_total", "C12_tpaq_block", "C12_tpaq_reject") + T(MCT, "entropy_consts", "range_consts", "consts_nonvacuous") + T(MBO, "entropy_layouts", "entropy_pairs_mirror"),
-    "streams": [ENTSMALL, RANGE, ANS1, CMPRED, TPAQPRED, BINENT, FPAQ, ENTDIRECT],
-    "level_text": "PARTIAL PROOF. Proved in Lean, each as `decode (encode x ++ rest) = (x, rest)` for every trailing bit string (exact consumption): VarInt, alphabet (all three encodings), the NONE codec for every length incl. 0 and > 2^23, the ANS order-0 and Range frequency headers (correct iff the table sums to 2^lr - which C16_normalize guarantees: C12_freq_header_after_normalize), one rANS step incl. the reciprocal-multiply division for every frequency and state. The whole ANS order-0 codec is proved: one state over any symbol list, the 4 interleaved states sharing one word stream, header + chunk, and the complete block Write/Read with per-chunk normalised tables (C12_ans0_block: for all bytes, lr in [8,15], chunk size < 2^26, decode(encode blk ++ rest) = (blk, rest)); the same model is tied differentially (byte-identical output on thousands of blocks). The whole order-0 RANGE codec is proved too: the carry-less renormalisation loop leaves after at most 2 shifts with range > 0xFFFF (C12_range_renorm), one encodeByte/decodeByte pair keeps both sides' registers equal with the decoder's code inside [low, low+range) and exact consumption (C12_range_step), and Write+Dispose followed by any bits then Read returns the block and leaves those bits, for every length incl. 0, every chunk size and logRange 8..15 (C12_range_block); tied byte-exactly by the range stream incl. searched blocks that take the rare truncation / double-shift branches. The whole ANS order-1 codec is proved as well (256-context header with stale-table threading, one state over a quarter, the 4 interleaved quarters, chunk of every length incl. 0..3, whole block through the constructor's parameter rules: C12_ans1_block_ctor), byte-exact ans1 stream. The CM predictor is modelled with its int32 arithmetic and proved to be a safe predictor: counters stay within [0,65520] (one column 65535), every Get() is in [0,4095] for both bitstream versions, no index fault, no int32 wrap (C12_cm_*; C12_cm_pred_safe is the instance hypothesis of the generic binary-coder theorem); cmpred stream compares every Get() value. The binary arithmetic coder (BinaryEntropyCodec.go: engine of CM, TPAQ, TPAQX) is modelled with its exact 64-bit arithmetic and proved for EVERY predictor given as a deterministic state machine with Get() in [0,4095]: the encoder never fails (it grows its buffer: fixes F36), the code value stays in [low, high] (C12_binary_code_value_in_interval), and Write+Dispose followed by any bits then Read returns the block with exact consumption and equal predictor states, for every non-empty block, single or multi chunk (C12_binary_block*), under the explicit decidable hypothesis fits2 = 'every chunk flushes fewer than twice its length', which is proved to be EXACTLY the decoder's acceptance test (C12_binary_reject; a synthetic predictor violating it: C12_binary_expansion_limit); instantiated with the CM predictor model it gives the whole CM codec (C12_cm_block, either bitstream version). FPAQ (own probability model, 4 MiB chunks) is modelled and proved the same way (C12_fpaq_block under the decoder's size test). fits2 is NOT discharged for the real predictors (it needs a bound on total code length; the searched maximum expansion is 1.35x). binent / fpaq streams: exact bytes for table-driven predictors and for the real CM codec, oracle round trips with the real CM/TPAQ/TPAQX predictors incl. greedy and interval-straddling adversaries. NOT modelled: the encoders' finite output buffers of ANS/Huffman, Huffman (slice in progress). The TPAQ / TPAQX predictor is modelled with REAL int32 wrap-around (mixer dot products, hashes), sparse tables of the real sizes, the SQUASH/STRETCH tables built by the same loops as init() and compared by hash with the real ones through a verif-tagged export: on every reachable state 1 <= Get() <= 4095 and no table index is out of range, for every constructor context with block size and size >= 1 (C12_tpaq_run, C12_tpaq_no_fault, C12_tpaq_pred_safe), hence the TPAQ and TPAQX codecs are instances of the binary-coder theorem too (C12_tpaq_block); tpaqpred stream compares every Get() value of the real predictor - searched directly on the real code (entdirect: all 9 codecs, lengths around every chunk boundary, 1..256 symbols, adversarial histograms, misaligned start, trailing sentinel, Read()==Written()).",
+                + T("Kanzi.Properties.C12_tpaq_codec", "C12_tpaq_codec_safe", "C12_tpaq_encode_total", "C12_tpaq_block", "C12_tpaq_reject")
+                + T("Kanzi.Properties.C12_huffman", "C12_huf_inplace_kraft", "C12_huf_fast_limit", "C12_huf_lengths_kraft", "C12_huf_canonical_prefix_free", "C12_huf_encoder_codes", "C12_huf_expgolomb", "C12_huf_header",
+                    "C12_huf_header_of_histogram", "C12_huf_symbols", "C12_huf_encoder_machine", "C12_huf_decoder_machine", "C12_huf_chunk", "C12_huf_block") + T(MCT, "entropy_consts", "range_consts", "consts_nonvacuous") + T(MBO, "entropy_layouts", "entropy_pairs_mirror"),
+    "streams": [ENTSMALL, RANGE, ANS1, HUFFMAN, CMPRED, TPAQPRED, BINENT, FPAQ, ENTDIRECT],
+    "level_text": "PARTIAL PROOF. Proved in Lean, each as `decode (encode x ++ rest) = (x, rest)` for every trailing bit string (exact consumption): VarInt, alphabet (all three encodings), the NONE codec for every length incl. 0 and > 2^23, the ANS order-0 and Range frequency headers (correct iff the table sums to 2^lr - which C16_normalize guarantees: C12_freq_header_after_normalize), one rANS step incl. the reciprocal-multiply division for every frequency and state. The whole ANS order-0 codec is proved: one state over any symbol list, the 4 interleaved states sharing one word stream, header + chunk, and the complete block Write/Read with per-chunk normalised tables (C12_ans0_block: for all bytes, lr in [8,15], chunk size < 2^26, decode(encode blk ++ rest) = (blk, rest)); the same model is tied differentially (byte-identical output on thousands of blocks). The whole order-0 RANGE codec is proved too: the carry-less renormalisation loop leaves after at most 2 shifts with range > 0xFFFF (C12_range_renorm), one encodeByte/decodeByte pair keeps both sides' registers equal with the decoder's code inside [low, low+range) and exact consumption (C12_range_step), and Write+Dispose followed by any bits then Read returns the block and leaves those bits, for every length incl. 0, every chunk size and logRange 8..15 (C12_range_block); tied byte-exactly by the range stream incl. searched blocks that take the rare truncation / double-shift branches. The whole ANS order-1 codec is proved as well (256-context header with stale-table threading, one state over a quarter, the 4 interleaved quarters, chunk of every length incl. 0..3, whole block through the constructor's parameter rules: C12_ans1_block_ctor), byte-exact ans1 stream. The CM predictor is modelled with its int32 arithmetic and proved to be a safe predictor: counters stay within [0,65520] (one column 65535), every Get() is in [0,4095] for both bitstream versions, no index fault, no int32 wrap (C12_cm_*; C12_cm_pred_safe is the instance hypothesis of the generic binary-coder theorem); cmpred stream compares every Get() value. The binary arithmetic coder (BinaryEntropyCodec.go: engine of CM, TPAQ, TPAQX) is modelled with its exact 64-bit arithmetic and proved for EVERY predictor given as a deterministic state machine with Get() in [0,4095]: the encoder never fails (it grows its buffer: fixes F36), the code value stays in [low, high] (C12_binary_code_value_in_interval), and Write+Dispose followed by any bits then Read returns the block with exact consumption and equal predictor states, for every non-empty block, single or multi chunk (C12_binary_block*), under the explicit decidable hypothesis fits2 = 'every chunk flushes fewer than twice its length', which is proved to be EXACTLY the decoder's acceptance test (C12_binary_reject; a synthetic predictor violating it: C12_binary_expansion_limit); instantiated with the CM predictor model it gives the whole CM codec (C12_cm_block, either bitstream version). FPAQ (own probability model, 4 MiB chunks) is modelled and proved the same way (C12_fpaq_block under the decoder's size test). fits2 is NOT discharged for the real predictors (it needs a bound on total code length; the searched maximum expansion is 1.35x). binent / fpaq streams: exact bytes for table-driven predictors and for the real CM codec, oracle round trips with the real CM/TPAQ/TPAQX predictors incl. greedy and interval-straddling adversaries. The whole HUFFMAN codec (bitstream version 6) is proved: the in-place length computation satisfies Kraft's equality for every weight list, the fast length limiting and both fallbacks (renormalisation to 2048, last resort) always end with lengths in [1,12] and Kraft sum <= 1 (C12_huf_lengths_kraft, every histogram, every branch), canonical codes are prefix-free and the encoder's codes are exactly the ones the decoder rebuilds from the transmitted lengths in every branch (C12_huf_canonical_prefix_free, C12_huf_encoder_codes), the Exp-Golomb coded header round-trips, the 64-bit register machines of encoder and decoder equal the plain code concatenation / table walk (also on corrupted payloads), and Write then Read returns every block with exact consumption (C12_huf_block: all lengths, all distributions, 4 interleaved sub-streams); byte-exact huffman stream with every branch of updateFrequencies reached. NOT modelled: the encoders' finite output buffers of ANS/Huffman. The TPAQ / TPAQX predictor is modelled with REAL int32 wrap-around (mixer dot products, hashes), sparse tables of the real sizes, the SQUASH/STRETCH tables built by the same loops as init() and compared by hash with the real ones through a verif-tagged export: on every reachable state 1 <= Get() <= 4095 and no table index is out of range, for every constructor context with block size and size >= 1 (C12_tpaq_run, C12_tpaq_no_fault, C12_tpaq_pred_safe), hence the TPAQ and TPAQX codecs are instances of the binary-coder theorem too (C12_tpaq_block); tpaqpred stream compares every Get() value of the real predictor - searched directly on the real code (entdirect: all 9 codecs, lengths around every chunk boundary, 1..256 symbols, adversarial histograms, misaligned start, trailing sentinel, Read()==Written()).",
     "level_note": BASE_NOTE + "logRange restricted to [8,15] as used by the factory (16 is accepted by the public constructors but unusable: observation in DESIGN.md).",
     "assumptions": ["adaptive binary codecs run the identical predictor on both sides (searched)"],
 }
